@@ -8,8 +8,10 @@ import (
 	"os"
 	"path/filepath"
 	"sort"
+	"strings"
 	"sync"
 	"sync/atomic"
+	"syscall"
 	"time"
 
 	"github.com/anishathalye/porcupine"
@@ -30,6 +32,7 @@ type ConcOp struct {
 	Ret     int64
 	Res     model.Res
 	Done    bool
+	Faulted bool // the disk was full during one of this call's steps
 }
 
 type concIn struct {
@@ -38,6 +41,7 @@ type concIn struct {
 	rules   []model.Rule
 	super   bool
 	readout bool
+	faulted bool
 }
 
 type concOut struct {
@@ -59,6 +63,11 @@ func porcupineModel(base *model.DB) porcupine.Model {
 			}
 			if !in.allowed {
 				return out.res.Class == model.AccessDenied || (out.res.Class == model.OtherError && in.op.Name == ""), st
+			}
+			if in.faulted && out.res.Class == model.OtherError {
+				// the disk was full while this call ran: it may fail, and a
+				// failed call has no effect
+				return true, st
 			}
 			exp := st.Peek(in.op)
 			if in.op.Kind == model.OpList {
@@ -209,6 +218,7 @@ func RunConc(s *kernel.Sim, prof *Profile, free bool) *Env {
 	e.tracef("config names=%q http=%v clients=%d restricted=%d free=%v", e.Names, e.HTTP, nClients, nRestricted, free)
 
 	var stamp atomic.Int64
+	curConc := map[string]*ConcOp{}
 	e.curOps = map[*kernel.Task]*OpCtx{}
 	var wg sync.WaitGroup
 	client := func(c int) func(*kernel.Task) {
@@ -217,6 +227,11 @@ func RunConc(s *kernel.Sim, prof *Profile, free bool) *Env {
 			for _, co := range perClient[c] {
 				s.Park("op", fmt.Sprintf("client%d", c), nil, nil, nil)
 				co.Call = stamp.Add(1)
+				if task != nil {
+					e.opMu.Lock()
+					curConc[task.Name] = co
+					e.opMu.Unlock()
+				}
 				var octx *OpCtx
 				if task != nil {
 					e.opMu.Lock()
@@ -316,7 +331,24 @@ func RunConc(s *kernel.Sim, prof *Profile, free bool) *Env {
 			} else {
 				pick = en[t.Choice(len(en))]
 			}
+			diskFull := false
+			if prof.DiskFaults && pick.Kind == "lock" && strings.HasPrefix(pick.Site, "db/") && t.Bool(1, 6) {
+				e.opMu.Lock()
+				co := curConc[pick.Task.Name]
+				e.opMu.Unlock()
+				if co != nil && !co.Done && co.Op.Kind.Mutating() {
+					// the disk is full for the duration of this step: whatever
+					// the released goroutine writes beyond a few bytes fails
+					co.Faulted = true
+					diskFull = true
+					setFileSizeLimit(48)
+					s.Fault("disk-full-window")
+				}
+			}
 			s.Release(pick)
+			if diskFull {
+				setFileSizeLimit(0)
+			}
 			if s.Failed() {
 				break
 			}
@@ -344,7 +376,7 @@ func RunConc(s *kernel.Sim, prof *Profile, free bool) *Env {
 			return e
 		}
 		hist = append(hist, porcupine.Operation{ClientId: co.Client,
-			Input: concIn{op: e.ModelOp(co.Op), allowed: co.Allowed, rules: co.Caller.Rules, super: co.Caller.Super},
+			Input: concIn{op: e.ModelOp(co.Op), allowed: co.Allowed, rules: co.Caller.Rules, super: co.Caller.Super, faulted: co.Faulted},
 			Call:  co.Call, Output: concOut{res: co.Res}, Return: co.Ret})
 		e.Ops++
 	}
@@ -377,11 +409,45 @@ func RunConc(s *kernel.Sim, prof *Profile, free bool) *Env {
 		s.Probe("porcupine-ok")
 	}
 
+	if e.Prof.Oracles["disk-equals-served"] {
+		// C04: whatever failed or succeeded, the file on disk holds exactly
+		// the state the running server serves
+		d2, err := db.Open(e.Path, e.KEK, audit.New(discard{}))
+		if err != nil {
+			e.fail("disk-equals-served", "after the run the database file does not open: %v", err)
+		} else {
+			old := e.DB
+			e.DB = d2
+			onDisk, derr := e.Observe()
+			e.DB = old
+			if derr != nil || onDisk != dump {
+				e.fail("disk-equals-served", "the file on disk does not hold the state the running server serves (%v):\n disk: %s\nserved: %s\n%s", derr, onDisk, dump, joinLines(e.Trace))
+			} else {
+				s.Probe("disk-equals-served")
+			}
+		}
+	}
 	if free {
 		e.judgeAuditFile(auditPath, ops)
 		e.auditFileSharing()
 	}
 	return e
+}
+
+// setFileSizeLimit sets (n > 0) or lifts (n == 0) the process's soft file
+// size limit: the in-process way of making the disk "full" for one step.
+// SIGXFSZ is ignored (see TestMain), so writes fail with EFBIG.
+func setFileSizeLimit(n uint64) {
+	var lim syscall.Rlimit
+	if err := syscall.Getrlimit(syscall.RLIMIT_FSIZE, &lim); err != nil {
+		return
+	}
+	if n == 0 {
+		lim.Cur = lim.Max
+	} else {
+		lim.Cur = n
+	}
+	syscall.Setrlimit(syscall.RLIMIT_FSIZE, &lim)
 }
 
 // auditFileSharing: the audit log is an O_APPEND file, so (a) two writers on
